@@ -315,6 +315,45 @@ func genFn(stream string, seed uint64, n int) []GenCase {
 			Runs: []Run{{Obj: stdObject(rr), Polls: defaultPolls}, {Obj: stdObject(rr), Polls: defaultPolls}}}
 		out = append(out, GenCase{Case: c, Stream: stream, NonTrivial: true})
 	}
+	// the name-clash matrix of the statement: every way the caller can bind a name × every way the
+	// callee can bind the same name × call depth; the caller's value must survive, the callee's be gone
+	{
+		callers := []struct{ name, pre, call, post string }{
+			{"param", "function outer(x) { ", "", " return [x, r]; } res = outer(1); return [res, x];"},
+			{"local", "function outer() { local x; x = 1; ", "", " return [x, r]; } res = outer(); return [res, x];"},
+			{"loopvar", "function outer() { foreach x in [1] { ", "", " out = [x, r]; } return out; } res = outer(); return [res, x];"},
+			{"global", "x = 1; ", "", " return [x, r];"},
+			{"top-loopvar", "foreach x in [1] { ", "", " out = [x, r]; } return [out, x];"},
+			{"index-loopvar", "foreach x, v in [1] { ", "", " out = [x, v, r]; } return [out, x];"},
+		}
+		callees := []struct{ name, def, call string }{
+			{"param", "function inner(x) { x = x + 5; rec(x); return x; }", "inner(7)"},
+			{"local", "function inner() { local x; x = 5; rec(x); return x; }", "inner()"},
+			{"loopvar", "function inner() { foreach x in [5, 6] { y = x; rec(x); } return y; }", "inner()"},
+			{"loopidx", "function inner() { foreach x, v in [5, 6] { y = x + v; } return y; }", "inner()"},
+			{"local-rec", "function inner(n) { local x; x = n; if (n > 0) { inner(n - 1); } rec(x); return x; }", "inner(2)"},
+			{"param-rec", "function inner(x) { if (x > 0) { inner(x - 1); } rec(x); return x; }", "inner(2)"},
+			{"early-return", "function inner() { foreach x in [5, 6] { if (x == 5) { return x; } } return 0; }", "inner()"},
+			{"local-in-loop", "function inner() { foreach q in [1, 2] { local x; x = q; } return q; }", "inner()"},
+		}
+		n := 0
+		for _, cr := range callers {
+			for _, ce := range callees {
+				for depth := 0; depth < 2; depth++ {
+					def, call := ce.def, ce.call
+					if depth == 1 {
+						def += " function mid() { return " + call + "; }"
+						call = "mid()"
+					}
+					script := def + " " + cr.pre + "r = " + call + ";" + cr.post
+					c := Case{ID: fmt.Sprintf("%s-clash-%d", stream, n), Script: script, Opt: n%2 == 0, Fns: []HostFn{recFn()},
+						Tags: []string{"clash:" + cr.name + "×" + ce.name}, Runs: []Run{{Obj: stdObject(r), Polls: defaultPolls}, {Obj: stdObject(r), Polls: defaultPolls}}}
+					n++
+					out = append(out, GenCase{Case: c, Stream: stream, NonTrivial: true})
+				}
+			}
+		}
+	}
 	// fixed cases of the statement
 	for k, s := range []string{
 		"function f(n) { if (n <= 1) { return 1; } return f(n - 1) * n; } return f(6);",
@@ -357,6 +396,18 @@ func genHist(stream string, seed uint64, n int) []GenCase {
 		"if (Flag) { return [1][0].x; }",
 		"if (Name == \"bob\") { while (true) { } }",
 		"if (Name == \"\") { return deep(0); }",
+	}
+	// a run that dies at the call-depth limit (and one that dies by time-out deep inside calls) must not
+	// shrink the budget of later runs
+	for k, polls := range []int{200000, 30000} {
+		cnt := func(v int64) HV {
+			return HV{Kind: "struct", Fields: []HField{{"Count", true, HV{Kind: "int", IntKind: "int", I: v}}}}
+		}
+		c := Case{ID: fmt.Sprintf("%s-depth-%d", stream, k), Opt: k == 0, Fns: []HostFn{recFn()}, Tags: []string{"history", "call-depth"}, Show: []string{"fresh"},
+			Script: "function runaway(n) { return runaway(n + 1); } function down(n) { if (n <= 0) { return 0; } return down(n - 1) + 1; } runs = runs + 1; if (Count == 0) { return runaway(0); } return down(Count);"}
+		c.AddVar("runs", VInt(0))
+		c.Runs = []Run{{Obj: cnt(3), Polls: 5000}, {Obj: cnt(0), Polls: polls}, {Obj: cnt(0), Polls: polls}, {Obj: cnt(3), Polls: 5000}, {Obj: cnt(9000), Polls: 190000}}
+		out = append(out, GenCase{Case: c, Stream: stream, NonTrivial: true, Pair: "self", Role: "history"})
 	}
 	for i := 0; i < n; i++ {
 		rr := r.Fork()
